@@ -108,14 +108,18 @@ Section Interp.
     | None => PFail
     | Some (x, rest) =>
       match rest with
-      | 91%N :: r1 =>
-        match expr r1 with
-        | PMatch ie (93%N :: r2) => PMatch (x, Some ie) r2
-        | PMatch _ _ | PFail => PMatch (x, None) rest
-        | PFuel => PFuel
-        | PBad => PBad
-        end
-      | _ => PMatch (x, None) rest
+      | c :: r1 =>
+        if N.eqb c 91 then                                   (* "[" *)
+          match expr r1 with
+          | PMatch ie (c2 :: r2) =>
+            if N.eqb c2 93 then PMatch (x, Some ie) r2       (* "]" *)
+            else PMatch (x, None) rest
+          | PMatch _ [] | PFail => PMatch (x, None) rest
+          | PFuel => PFuel
+          | PBad => PBad
+          end
+        else PMatch (x, None) rest
+      | [] => PMatch (x, None) rest
       end
     end.
 
